@@ -223,7 +223,7 @@ def _locate(labels, x, method):
     return best
 
 
-def c19_iteragg(L, labels, n, begin, end, method, which, dim):
+def c19_iteragg(L, labels, n, begin, end, method, which, dim, lead=True):
     import xarray as xr
     import pandas as pd
     import hdc.algo  # noqa
@@ -237,6 +237,8 @@ def c19_iteragg(L, labels, n, begin, end, method, which, dim):
         conv = lambda k: int(k)  # noqa: E731
     coords = [conv(k) for k in labels]
     da = xr.DataArray(data, dims=(dim, "y", "x"), coords={dim: coords})
+    if not lead:
+        da = da.transpose("y", "x", dim)
     kw = {"n": n, "dim": dim, "method": method}
     if begin is not None:
         kw["begin"] = conv(begin)
@@ -271,9 +273,12 @@ def c19_iteragg(L, labels, n, begin, end, method, which, dim):
                 with warnings.catch_warnings():
                     warnings.simplefilter("ignore")
                     ref = (np.nansum if which == "sum" else np.nanmean)(sl, axis=0)
-        val = np.asarray(g.values)
-        if which != "full" and dim == "time":
-            val = val.squeeze(0) if val.ndim == 3 else val
+        if which == "full":
+            val = np.asarray(g.transpose(dim, "y", "x").values)
+        elif dim == "time":
+            val = np.asarray(g.transpose("time", "y", "x").values).squeeze(0)
+        else:
+            val = np.asarray(g.transpose("y", "x").values)
         if val.shape != ref.shape or not np.allclose(val, ref, equal_nan=True):
             bad.append(f"window ending at {last}: wrong values")
         a = g.attrs
@@ -1372,12 +1377,13 @@ def c08_spi(entry, pixel, nodata, window=None, groups=None, cal=None, shape="mod
 # ------------------------------------------------------------------ C09
 def _times(times):
     import pandas as pd
-    return pd.DatetimeIndex([pd.Timestamp("2000-01-01") + pd.Timedelta(days=int(t)) for t in times])
+    # abstract time stamps are integer HOURS (so that bounds with a time of day are representable)
+    return pd.DatetimeIndex([pd.Timestamp("2000-01-01") + pd.Timedelta(hours=int(t)) for t in times])
 
 
 def _ts(v):
     import pandas as pd
-    return pd.Timestamp("2000-01-01") + pd.Timedelta(days=int(v))
+    return pd.Timestamp("2000-01-01") + pd.Timedelta(hours=int(v))
 
 
 def c09_indices(times, begin, end, groups=None, num_groups=None):
